@@ -286,6 +286,9 @@ impl<'a> Gen<'a> {
             0 => ((DAY * (1 + self.r.below(300))).to_string(), "-".to_string()),
             1 => ((DAY * (1 + self.r.below(300))).to_string(), format!("l{}", self.r.below(3))),
             2 | 3 if !existing.is_empty() => ((DAY * (1 + self.r.below(300))).to_string(), existing[self.r.below(existing.len() as u64) as usize].clone()),
+            // an identifier WITHOUT an unlocking duration (nothing is locked then: the identifier must not reach any position)
+            4 if !existing.is_empty() => ("-".to_string(), existing[self.r.below(existing.len() as u64) as usize].clone()),
+            5 if self.r.chance(1, 3) => ("-".to_string(), format!("l{}", self.r.below(3))),
             _ => ("-".to_string(), "-".to_string()),
         };
         let stable = !matches!(pi.pool_type, mantra_dex_std::pool_manager::PoolType::ConstantProduct);
@@ -929,7 +932,10 @@ impl<'a> Gen<'a> {
             let asset = coin(aa, "uusdc");
             let funds = self.farm_fee_funds(&asset);
             let (e, tag) = (cur + 10 + self.r.below(10), self.r.below(1000));
-            self.emit(format!("tx u1 {} fm createfarm {} {} {} uusdc {} sc{}{}", funds_str(&funds), lp, cur + 1, e, aa, k, tag));
+            // (every other time the owner's FIRST farm — in identifier order — has not started when the exit comes, the second
+            //  one is running: the owner is an active farm owner all the same)
+            let start = if k == 0 && self.r.chance(1, 2) { cur + 6 } else { cur + 1 };
+            self.emit(format!("tx u1 {} fm createfarm {} {} {} uusdc {} sc{}{}", funds_str(&funds), lp, start, e, aa, k, tag));
         }
         // somebody locks LP of that token
         let holders = self.lp_holders(&lp);
@@ -1466,6 +1472,40 @@ impl<'a> Gen<'a> {
         self.emit(format!("tx {} 0 fm claim -", u));
     }
 
+    /// directed scenario for C06 / C07: a staker who has ALREADY claimed the current epoch gets a further position through a
+    /// locked deposit (the pool manager creates it on the staker's behalf) and claims again in the same epoch and in the next:
+    /// the second claim of the same epoch pays nothing, the next pays one epoch — the claim cursor survives the lock
+    pub fn op_scenario_lock_after_claim(&mut self) {
+        let tag = self.r.below(1000);
+        let cf = self.creation_funds();
+        self.emit(format!("tx u1 {} pm create cp 0 2 uom 6 uusdc 6 0 0 0 - lc{}", funds_str(&cf), tag));
+        let mut d1 = vec![coin(60_000_000, "uom"), coin(60_000_000, "uusdc")]; d1.sort_by(|x, y| x.denom.cmp(&y.denom));
+        self.emit(format!("tx u2 {} pm provide o.lc{} - - - - -", funds_str(&d1), tag));
+        self.emit(format!("tx u3 {} pm provide o.lc{} - - - - -", funds_str(&d1), tag));
+        let lp = format!("factory/pm/o.lc{}.LP", tag);
+        let cur = self.cur_epoch();
+        let rate = 1000 + self.r.below(50_000) as u128;
+        let asset = coin(rate * 8, "uusdt");
+        let funds = self.farm_fee_funds(&asset);
+        self.emit(format!("tx u1 {} fm createfarm {} {} {} uusdt {} lcf{}", funds_str(&funds), lp, cur + 1, cur + 9, rate * 8, tag));
+        let b2 = self.run.h.w.balance("u2", &lp);
+        let b3 = self.run.h.w.balance("u3", &lp);
+        if b2 < 10 || b3 < 10 { return; }
+        self.emit(format!("tx u2 1 {} {} fm createpos la{} {} -", lp, b2 / 3, tag, DAY * 2));
+        self.emit(format!("tx u3 1 {} {} fm createpos lb{} {} -", lp, b3 / 2, tag, DAY * 5));
+        let adv = (2 + self.r.below(2)) * DAY * 1_000_000_000;
+        self.emit(format!("advance {}", adv));
+        self.emit("tx u2 0 fm claim -".to_string());
+        // the locked deposit: a new position for u2, created by the pool manager
+        let mut d2 = vec![coin(3_000_000, "uom"), coin(3_000_000, "uusdc")]; d2.sort_by(|x, y| x.denom.cmp(&y.denom));
+        let lockid = if self.r.chance(1, 2) { "-".to_string() } else { format!("lx{}", tag) };
+        self.emit(format!("tx u2 {} pm provide o.lc{} - - - {} {}", funds_str(&d2), tag, DAY * 3, lockid));
+        self.emit("tx u2 0 fm claim -".to_string());
+        self.emit(format!("advance {}", DAY * 1_000_000_000));
+        self.emit("tx u2 0 fm claim -".to_string());
+        self.emit("tx u3 0 fm claim -".to_string());
+    }
+
     /// directed scenario for C10 / C08: one user is given MORE than ten open positions through locked deposits of the pool
     /// manager, across two LP tokens (the limit of open positions per receiver must hold on that path too); then positions are
     /// closed — a user with an open position in an LP token keeps a weight history for it
@@ -1917,7 +1957,8 @@ pub fn gen_fm_case(r: &mut Rng, id: u64, len: u64, faults: bool, o: &mut Out) {
     for _ in 0..6 { g.op_provide(); }
     // every second case starts with one directed scenario, in rotation, whatever the seed
     if let Some(k) = scen {
-        match k % 21 {
+        match k % 22 {
+            21 => g.op_scenario_lock_after_claim(),
             20 => g.op_scenario_claim_until_past_epoch(),
             19 => g.op_scenario_whale_weights(),
             18 => g.op_scenario_refill_closed_via_pm(),
@@ -2190,6 +2231,9 @@ pub fn run_twin(seed: u64, cases: u64, o: &mut Out) {
             // deposit under a loose deposit tolerance only must be refused exactly when the manual swap is)
             let ls = ["-", "-", "10000000000000000", "50000000000000000", "300000000000000000", "0", "2000000000000000", "500000000000000000", "300000000000000000"][r.below(9) as usize];
             let (unlock, lockid) = match r.below(3) { 0 => ((DAY * (1 + r.below(100))).to_string(), "-".to_string()), 1 => ((DAY * (1 + r.below(100))).to_string(), "tw".to_string()), _ => ("-".into(), "-".into()) };
+            // the LP receiver named in both deployments: absent, the depositor itself, or a string that is not a valid address
+            // (then the depositor is the receiver — in the single-asset path just as in the two-step path)
+            let recv: String = match r.below(6) { 0 => "bogus".into(), 1 => user.to_string(), _ => "-".into() };
             let lp = run_a.h.w.cd(&p.lp_denom);
             // now and then swaps are paused on the pool in BOTH deployments: the depositor's own swap is refused, so must the
             // single-asset deposit be
@@ -2199,7 +2243,7 @@ pub fn run_twin(seed: u64, cases: u64, o: &mut Out) {
                 run_b.step(&line, &mut ob);
             }
             // A: single-asset deposit
-            let res_a = run_a.step(&format!("tx {} 1 {} {} pm provide {} {} {} - {} {}", user, od, a, pid, ls, ss, unlock, lockid), o);
+            let res_a = run_a.step(&format!("tx {} 1 {} {} pm provide {} {} {} {} {} {}", user, od, a, pid, ls, ss, recv, unlock, lockid), o);
             o.raw("end");
             // B: swap half, then deposit half + proceeds
             o.raw(&format!("begin {}", 2 * i + 1));
@@ -2212,7 +2256,7 @@ pub fn run_twin(seed: u64, cases: u64, o: &mut Out) {
             let mut funds = vec![coin(half, od.clone()), coin(proceeds, ad.clone())];
             funds.sort_by(|x, y| x.denom.cmp(&y.denom));
             let res_b2 = if res_b1 == "ok" {
-                run_b.step(&format!("tx {} {} pm provide {} {} {} - {} {}", user, coins_str(&funds), pid, ls, ss, unlock, lockid), o)
+                run_b.step(&format!("tx {} {} pm provide {} {} {} {} {} {}", user, coins_str(&funds), pid, ls, ss, recv, unlock, lockid), o)
             } else { "skip".to_string() };
             let (oa, ob2) = (&run_a.h.last_obs, &run_b.h.last_obs);
             let pa = oa.pools.iter().find(|x| x.pool_info.pool_identifier == pid).unwrap();
